@@ -16,7 +16,7 @@ func TestC20(t *testing.T) {
 	mon.Main(t, mon.Check{
 		ID:    "C20",
 		Level: "exploration",
-		Rule: "a real gbn.TimeoutManager is driven directly, inside a virtual-time bubble, with PRNG histories of 50-2000 Sent/Received events over SYN, SYNACK, DATA(seq), ACK(seq), NACK, FIN with arbitrary sequence numbers (ACKs for never-sent, resent and reused numbers included) and inter-event gaps from 0 to 1 h; multipliers 1..20, update frequencies 1..200, boost 1%..300%, static and adaptive mode, handshake timeouts 0.2-5 s. After every event GetResendTimeout/GetHandshakeTimeout are compared with a shadow derived from the statement: adaptive value >= 1 s; it is recomputed only at Received(ACK k) whose latest Sent(DATA k) was not a resend and was not consumed yet (and the update frequency permits), or at Received(SYN/SYNACK) with an unresent pending SYN, and then equals max(1s, multiplier*RTT); it increases only at Sent(DATA, resent) by exactly boost%*base and at most once per base interval; static mode: both timeouts constant. Non-trivial = history with at least one fresh sample and one boost; distinct = hash of the event-kind sequence.",
+		Rule:  "a real gbn.TimeoutManager is driven directly, inside a virtual-time bubble, with PRNG histories of 50-2000 Sent/Received events over SYN, SYNACK, DATA(seq), ACK(seq), NACK, FIN with arbitrary sequence numbers (ACKs for never-sent, resent and reused numbers included) and inter-event gaps from 0 to 1 h; multipliers 1..20, update frequencies 1..200, boost 1%..300%, static and adaptive mode, handshake timeouts 0.2-5 s. After every event GetResendTimeout/GetHandshakeTimeout are compared with a shadow derived from the statement: adaptive value >= 1 s; it is recomputed only at Received(ACK k) whose latest Sent(DATA k) was not a resend and was not consumed yet (and the update frequency permits), or at Received(SYN/SYNACK) with an unresent pending SYN, and then equals max(1s, multiplier*RTT); it increases only at Sent(DATA, resent) by exactly boost%*base and at most once per base interval; static mode: both timeouts constant. Non-trivial = history with at least one fresh sample and one boost; distinct = hash of the event-kind sequence.",
 		Assumptions: []string{
 			"the shadow compares durations with a relative tolerance of 1e-5 (the implementation multiplies in float32)",
 		},
